@@ -20,7 +20,7 @@ ID = 'C15'
 LEVEL = 'exploration'
 TECHNIQUE = 'runtime monitor: open/close history checker joined with the recorder\'s per-thread invocation stack (frame identity)'
 RULE = ('generated programs (recursion, mutual recursion, nested calls, caught / re-raised / propagating exceptions, '
-        'finally, generators incl. send/throw/close and yield from, 1-3 worker threads, 2-3 threads driven in lock step through a seeded turn order so that invocations of one function overlap across threads), 1-3 span processors, x 1-5 deferred tracepoints: '
+        'finally, generators incl. send/throw/close and yield from, 1-3 worker threads, 2-3 threads driven in lock step through a seeded turn order so that invocations of one function overlap across threads), 1-3 span processors, a 500+ deep recursion with two spans pending per invocation, x 1-5 deferred tracepoints: '
         'line spans, method spans (by name), method_capture / line_capture snapshots (direct actions), co-located '
         'line+method tracepoints on one function incl. its last line, fire_count 1 or unlimited; non-trivial = at '
         'least one opening observed; distinct by (shapes, tracepoints)')
@@ -29,7 +29,7 @@ ASSUMPTIONS = ['one generator resume counts as one invocation (CPython reports c
 REQUIRE = {'openings': 1500, 'span_openings': 600, 'capture_openings': 300, 'recursive_openings': 60,
            'openings_in_threads': 40, 'exception_exits': 60,
            'withdrawn_mid_flight': 30, 'several_span_processors': 100,
-           'openings_overlapping_same_function_in_another_thread': 40}
+           'openings_overlapping_same_function_in_another_thread': 40, 'deep_recursion_cases': 10}
 
 
 def plan(tier, seed):
@@ -39,7 +39,7 @@ def plan(tier, seed):
 
 FORCE = [['recursion'], ['mutual'], ['nested_calls'], ['try_caught'], ['finally_reraise'], ['propagate'],
          ['gen_full'], ['gen_send_throw'], ['yield_from'], ['threads'], ['method_exc'], ['else_finally'],
-         ['uncaught_in_gen'], ['with_cm'], ['recursion', 'threads'], ['klass'], ['lockstep'], ['lockstep', 'mutual']]
+         ['uncaught_in_gen'], ['with_cm'], ['recursion', 'threads'], ['klass'], ['lockstep'], ['lockstep', 'mutual'], ['deep_recursion']]
 
 
 class Inv:
@@ -65,6 +65,19 @@ def case_deferred(seed, out, spec, wd, idx):
     ntp = r.randrange(1, 6)
     tps = []
     trigs = []
+    deep = [f for f in funcs if f.startswith('deep_rec_')]
+    if deep:
+        # more than a thousand pieces of deferred work pending at once in one thread: a method span and a line span
+        # per invocation of a 500+ deep recursion
+        f = deep[0]
+        start = prog.func_lines[f]
+        ln = next(n_ for n_ in body_lines if n_ > start and 'below = ' in prog.src.split('\n')[n_ - 1])
+        common = {'fire_count': '-1', 'fire_period': '0', 'snapshot': 'no_collect'}
+        trigs.append(line_trigger('deepM', prog.base, start, dict(common, span='method', method_name=f), [], []))
+        trigs.append(line_trigger('deepL', prog.base, ln, dict(common, span='line'), [], []))
+        tps += [('deepM', 'mspan', f, '-1'), ('deepL', 'lspan', ln, '-1')]
+        ntp = r.randrange(0, 2)
+        out.count('deep_recursion_cases')
     for i in range(ntp):
         kind = r.pick(['mspan', 'mspan', 'lspan', 'mcapture', 'mcapture', 'lcapture', 'colocated'])
         fc = r.pick(['-1', '-1', '1'])
